@@ -470,3 +470,15 @@ def place_on(skeleton, events_at):
         if i < len(skeleton):
             out.append(list(skeleton[i]))
     return out
+
+
+def pause_carried_out_after_play(trace):
+    """D29: a listener of the transition that a deferred pause action performs withdrew that pause — play() answered True, or
+    kill() armed a kill action in its place (the pause action future is cancelled either way) — and right after it the pause
+    hooks ran all the same.  Returns the index or None."""
+    for j in range(1, len(trace)):
+        if trace[j] == ['hook', 'on_pausing']:
+            e = trace[j - 1]
+            if e[0] == 'ctl' and ((e[1] == ['play'] and e[2] == ['bool', True]) or (e[1][0] == 'kill' and e[2][0] == 'action')):
+                return j
+    return None
